@@ -190,6 +190,13 @@ def parse_http_response(data, method):
             rest = rest[n + 2:]
     else:
         body = rest
+        # a client reads exactly as many octets as the server announces
+        cl = [v for k, v in headers if k.lower() == "content-length"]
+        if cl and method != "HEAD":
+            try:
+                body = rest[:int(cl[0])]
+            except ValueError:
+                pass
     return Response(status, headers, body)
 
 
@@ -339,6 +346,14 @@ class World:
         status = int(captured["status"].split(" ", 1)[0])
         if method == "HEAD":
             out = b""
+        else:
+            # (what a client behind a real WSGI server receives: the announced number of octets)
+            for k, v in captured["headers"]:
+                if k.lower() == "content-length":
+                    try:
+                        out = out[:int(v)]
+                    except ValueError:
+                        pass
         return Response(status, captured["headers"], out)
 
 
